@@ -299,7 +299,7 @@ def run_cases(ctx, name, prelude, exprs, shard=250, timeout=1200):
             + prelude
             + "\nDefinition results : list Z := [\n"
             + body
-            + "\n]%Z.\nEval vm_compute in (Z.of_nat (length results), nonzero 0 results).\n"
+            + "\n]%Z.\nEval vm_compute in (Z.of_nat (List.length results), nonzero 0 results).\n"
         )
         files.append((k, p))
     codes = [None] * len(exprs)
